@@ -22,7 +22,7 @@ Qed.
 Definition table_of (o : regop) : N :=
   match o with
   | CreateApplication _ | DeleteApplication _ => 1
-  | CreateDevice _ | UpdateDevice _ | UpdateDeviceState _ _ _ _ | DeleteDevice _ | AdvanceFCntUp _ _ _ _ | NextFCntDn _ => 2
+  | CreateDevice _ | UpdateDevice _ | UpdateDeviceState _ _ _ _ | DeleteDevice _ | AdvanceFCntUp _ _ _ _ _ | NextFCntDn _ _ => 2
   | AddDevNonce _ _ => 3
   | CreateGateway _ | UpdateGateway _ | DeleteGateway _ => 4
   | CreateUpstreamMessage _ => 5
@@ -86,7 +86,7 @@ End Find.
 Definition dev_target (o : regop) : option N :=
   match o with
   | CreateDevice d | UpdateDevice d => Some (rd_eui d)
-  | UpdateDeviceState e _ _ _ | DeleteDevice e | AdvanceFCntUp e _ _ _ | NextFCntDn e => Some e
+  | UpdateDeviceState e _ _ _ | DeleteDevice e | AdvanceFCntUp e _ _ _ _ | NextFCntDn e _ => Some e
   | _ => None
   end.
 Theorem device_untouched_by_others s o e : dev_target o <> Some e -> dev_at (fst (a_step s o)) e = dev_at s e.
@@ -103,12 +103,15 @@ Proof.
   - destruct (existsb _ (a_devs s)); cbn; [|reflexivity]. apply (find_filter_other rd_eui). congruence.
   - (* AdvanceFCntUp *)
     destruct (existsb _ (a_devs s)); cbn; [|reflexivity].
-    rewrite (map_ext _ (fun y => if rd_eui y =? e0 then (if rd_fup y <=? accepted then upd_dev_state y newfup (rd_fdn y) kw else y) else y))
-      by (intros y; destruct (rd_eui y =? e0), (rd_fup y <=? accepted); reflexivity).
-    rewrite (find_map_upd rd_eui) by (intros y; destruct (rd_fup y <=? accepted); reflexivity).
+    rewrite (map_ext _ (fun y => if rd_eui y =? e0 then (if (rd_fup y <=? accepted) && bytes_eqb (rd_nwkskey y) key then upd_dev_state y newfup (rd_fdn y) kw else y) else y))
+      by (intros y; destruct (rd_eui y =? e0), (rd_fup y <=? accepted), (bytes_eqb (rd_nwkskey y) key); reflexivity).
+    rewrite (find_map_upd rd_eui) by (intros y; destruct ((rd_fup y <=? accepted) && bytes_eqb (rd_nwkskey y) key); reflexivity).
     destruct (N.eqb_spec e e0); [congruence|reflexivity].
   - (* NextFCntDn *)
-    destruct (find _ (a_devs s)); cbn; [|reflexivity]. rewrite (find_map_upd rd_eui) by reflexivity.
+    destruct (find _ (a_devs s)); cbn; [|reflexivity].
+    rewrite (map_ext _ (fun y => if rd_eui y =? e0 then (if bytes_eqb (rd_nwkskey y) key then upd_dev_state y (rd_fup y) ((rd_fdn y + 1) mod 65536) (rd_kw y) else y) else y))
+      by (intros y; destruct (rd_eui y =? e0), (bytes_eqb (rd_nwkskey y) key); reflexivity).
+    rewrite (find_map_upd rd_eui) by (intros y; destruct (bytes_eqb (rd_nwkskey y) key); reflexivity).
     destruct (N.eqb_spec e e0); [congruence|reflexivity].
 Qed.
 Theorem created_device_is_returned s d : snd (a_step s (CreateDevice d)) = ROk ->
@@ -129,43 +132,63 @@ Proof.
   cbn [a_step]. destruct (existsb _ (a_devs s)); cbn; [|discriminate]. intros _. unfold dev_at. cbn.
   rewrite (find_map_upd rd_eui) by reflexivity. now rewrite N.eqb_refl.
 Qed.
-(* AdvanceFCntUp is a compare-and-store: whatever it answers, the device's expected uplink counter (and key
-   warning) change exactly when the stored counter had not passed the accepted one; it answers ROk exactly then *)
-Theorem advance_is_compare_and_store s e a nf kw :
-  dev_at (fst (a_step s (AdvanceFCntUp e a nf kw))) e
-  = option_map (fun old => if rd_fup old <=? a then upd_dev_state old nf (rd_fdn old) kw else old) (dev_at s e).
+(* AdvanceFCntUp is a compare-and-store within a session: whatever it answers, the device's expected uplink counter
+   (and key warning) change exactly when the stored counter had not passed the accepted one AND the device still has the
+   given network session key; it answers ROk exactly then *)
+Theorem advance_is_compare_and_store s e key a nf kw :
+  dev_at (fst (a_step s (AdvanceFCntUp e key a nf kw))) e
+  = option_map (fun old => if (rd_fup old <=? a) && bytes_eqb (rd_nwkskey old) key then upd_dev_state old nf (rd_fdn old) kw else old) (dev_at s e).
 Proof.
   cbn [a_step]. destruct (existsb _ (a_devs s)) eqn:Ex; cbn [fst].
   - unfold dev_at. cbn.
-    rewrite (map_ext _ (fun y => if rd_eui y =? e then (if rd_fup y <=? a then upd_dev_state y nf (rd_fdn y) kw else y) else y))
-      by (intros y; destruct (rd_eui y =? e), (rd_fup y <=? a); reflexivity).
-    rewrite (find_map_upd rd_eui) by (intros y; destruct (rd_fup y <=? a); reflexivity). now rewrite N.eqb_refl.
+    rewrite (map_ext _ (fun y => if rd_eui y =? e then (if (rd_fup y <=? a) && bytes_eqb (rd_nwkskey y) key then upd_dev_state y nf (rd_fdn y) kw else y) else y))
+      by (intros y; destruct (rd_eui y =? e), (rd_fup y <=? a), (bytes_eqb (rd_nwkskey y) key); reflexivity).
+    rewrite (find_map_upd rd_eui) by (intros y; destruct ((rd_fup y <=? a) && bytes_eqb (rd_nwkskey y) key); reflexivity). now rewrite N.eqb_refl.
   - unfold dev_at. destruct (find _ (a_devs s)) as [d|] eqn:F; cbn [option_map]; [|reflexivity].
     apply find_some in F. destruct F as [Hin Hk].
-    assert (H : (rd_eui d =? e) && (rd_fup d <=? a) = false).
-    { destruct ((rd_eui d =? e) && (rd_fup d <=? a)) eqn:Hh; [|reflexivity]. exfalso.
-      assert (existsb (fun x => (rd_eui x =? e) && (rd_fup x <=? a)) (a_devs s) = true) by (apply existsb_exists; eauto). congruence. }
-    rewrite Hk in H. cbn in H. now rewrite H.
+    assert (H : (rd_eui d =? e) && (rd_fup d <=? a) && bytes_eqb (rd_nwkskey d) key = false).
+    { destruct ((rd_eui d =? e) && (rd_fup d <=? a) && bytes_eqb (rd_nwkskey d) key) eqn:Hh; [|reflexivity]. exfalso.
+      assert (existsb (fun x => (rd_eui x =? e) && (rd_fup x <=? a) && bytes_eqb (rd_nwkskey x) key) (a_devs s) = true) by (apply existsb_exists; eauto). congruence. }
+    rewrite Hk in H. cbn [andb] in H. now rewrite H.
 Qed.
-Theorem advance_answers_found_iff_stored s e a nf kw :
-  snd (a_step s (AdvanceFCntUp e a nf kw)) = ROk <-> exists d, In d (a_devs s) /\ rd_eui d = e /\ rd_fup d <= a.
+Theorem advance_answers_found_iff_stored s e key a nf kw :
+  snd (a_step s (AdvanceFCntUp e key a nf kw)) = ROk <-> exists d, In d (a_devs s) /\ rd_eui d = e /\ rd_fup d <= a /\ rd_nwkskey d = key.
 Proof.
   cbn [a_step]. destruct (existsb _ (a_devs s)) eqn:Ex; cbn [snd].
   - split; [intros _|reflexivity]. apply existsb_exists in Ex. destruct Ex as (d & Hin & Hh). apply andb_true_iff in Hh.
-    destruct Hh as [H1 H2]. exists d. apply N.eqb_eq in H1. apply N.leb_le in H2. auto.
-  - split; [discriminate|]. intros (d & Hin & H1 & H2). exfalso.
-    assert (existsb (fun x => (rd_eui x =? e) && (rd_fup x <=? a)) (a_devs s) = true).
-    { apply existsb_exists. exists d. split; [exact Hin|]. apply andb_true_iff. split; [now apply N.eqb_eq | now apply N.leb_le]. }
+    destruct Hh as [Hh H3]. apply andb_true_iff in Hh. destruct Hh as [H1 H2]. exists d. apply N.eqb_eq in H1. apply N.leb_le in H2. apply bytes_eqb_spec in H3. auto.
+  - split; [discriminate|]. intros (d & Hin & H1 & H2 & H3). exfalso.
+    assert (existsb (fun x => (rd_eui x =? e) && (rd_fup x <=? a) && bytes_eqb (rd_nwkskey x) key) (a_devs s) = true).
+    { apply existsb_exists. exists d. split; [exact Hin|]. rewrite !andb_true_iff. split; [split; [now apply N.eqb_eq | now apply N.leb_le] | now apply bytes_eqb_spec]. }
     congruence.
 Qed.
-(* NextFCntDn is a fetch-and-increment: the stored downlink counter is handed out and its successor (mod 2^16) stored *)
-Theorem next_is_fetch_and_increment s e :
-  snd (a_step s (NextFCntDn e)) = match dev_at s e with Some d => RCnt (rd_fdn d) | None => RNotFound end /\
-  dev_at (fst (a_step s (NextFCntDn e))) e
-  = option_map (fun old => upd_dev_state old (rd_fup old) ((rd_fdn old + 1) mod 65536) (rd_kw old)) (dev_at s e).
+(* with one device per EUI, looking for "EUI e in session key" is looking at the device e and at its key *)
+Lemma find_in_session s e (c : rdev -> bool) : NoDup (map rd_eui (a_devs s)) ->
+  find (fun x => (rd_eui x =? e) && c x) (a_devs s) = match dev_at s e with Some d => if c d then Some d else None | None => None end.
 Proof.
-  cbn [a_step]. unfold dev_at. destruct (find _ (a_devs s)) as [d|] eqn:F; cbn [fst snd option_map]; [|now rewrite F].
-  split; [reflexivity|]. cbn. rewrite (find_map_upd rd_eui) by reflexivity. now rewrite N.eqb_refl, F.
+  unfold dev_at. induction (a_devs s) as [|h t IH]; intros Hn; [reflexivity|]. cbn [find map] in *. inversion Hn as [|? ? Hh Ht]; subst.
+  destruct (N.eqb_spec (rd_eui h) e) as [E|E]; cbn [andb]; [|now apply IH].
+  destruct (c h); [reflexivity|].
+  (* no other row has this EUI *)
+  assert (Hnone : forall l, ~ In e (map rd_eui l) -> find (fun x => (rd_eui x =? e) && c x) l = None).
+  { clear. induction l as [|a l IHl]; intros Hn; [reflexivity|]. cbn [find map] in *.
+    destruct (N.eqb_spec (rd_eui a) e) as [Ea|Ea]; [exfalso; apply Hn; now left|]. cbn [andb]. apply IHl. intros Hi. apply Hn. now right. }
+  apply Hnone. now rewrite <- E.
+Qed.
+(* NextFCntDn is a fetch-and-increment within a session: the stored downlink counter is handed out and its successor
+   (mod 2^16) stored - if the device still has the given network session key; otherwise nothing happens *)
+Theorem next_is_fetch_and_increment s e key : NoDup (map rd_eui (a_devs s)) ->
+  snd (a_step s (NextFCntDn e key)) = match dev_at s e with Some d => if bytes_eqb (rd_nwkskey d) key then RCnt (rd_fdn d) else RNotFound | None => RNotFound end /\
+  dev_at (fst (a_step s (NextFCntDn e key))) e
+  = option_map (fun old => if bytes_eqb (rd_nwkskey old) key then upd_dev_state old (rd_fup old) ((rd_fdn old + 1) mod 65536) (rd_kw old) else old) (dev_at s e).
+Proof.
+  intros Hn. cbn [a_step]. rewrite (find_in_session s e (fun x => bytes_eqb (rd_nwkskey x) key) Hn).
+  destruct (dev_at s e) as [d|] eqn:F; cbn [option_map]; [|cbn [fst snd]; now rewrite F].
+  destruct (bytes_eqb (rd_nwkskey d) key) eqn:K; cbn [fst snd]; [|split; [reflexivity | exact F]].
+  split; [reflexivity|]. unfold dev_at in *. cbn [a_devs set_devs].
+  rewrite (map_ext _ (fun y => if rd_eui y =? e then (if bytes_eqb (rd_nwkskey y) key then upd_dev_state y (rd_fup y) ((rd_fdn y + 1) mod 65536) (rd_kw y) else y) else y))
+    by (intros y; destruct (rd_eui y =? e), (bytes_eqb (rd_nwkskey y) key); reflexivity).
+  rewrite (find_map_upd rd_eui) by (intros y; destruct (bytes_eqb (rd_nwkskey y) key); reflexivity). rewrite N.eqb_refl, F. cbn [option_map]. now rewrite K.
 Qed.
 Theorem deleted_device_is_gone s e : snd (a_step s (DeleteDevice e)) = ROk ->
   dev_at (fst (a_step s (DeleteDevice e))) e = None /\ forall x, In x (a_devs (fst (a_step s (DeleteDevice e)))) -> rd_eui x <> e.
@@ -220,9 +243,9 @@ Proof.
     erewrite map_ext; [exact H|]. intros x. cbn. now destruct (rd_eui x =? e).
   - destruct (existsb _ (a_devs s)); cbn; [|exact H]. now apply NoDup_map_filter.
   - destruct (existsb _ (a_devs s)); cbn; [|exact H]. rewrite map_map.
-    erewrite map_ext; [exact H|]. intros x. cbn. now destruct ((rd_eui x =? e) && (rd_fup x <=? accepted)).
+    erewrite map_ext; [exact H|]. intros x. cbn. now destruct ((rd_eui x =? e) && (rd_fup x <=? accepted) && bytes_eqb (rd_nwkskey x) key).
   - destruct (find _ (a_devs s)); cbn; [|exact H]. rewrite map_map.
-    erewrite map_ext; [exact H|]. intros x. cbn. now destruct (rd_eui x =? e).
+    erewrite map_ext; [exact H|]. intros x. cbn. now destruct ((rd_eui x =? e) && bytes_eqb (rd_nwkskey x) key).
 Qed.
 
 (* ---- applications and gateways: same laws ---- *)
